@@ -213,10 +213,12 @@ Qed.
 Lemma fmb_elapse_eq p t s :
   fmb_elapse p t s =
   (set_l2 (set_u s (fst (elapse_keydown_trait (xp p) t (x_u s))))
-          (if kd_ends (u_kd (x_u s)) t then (xp_t1 p, xp_t1 p) else (fst (x_l2 s) - t, snd (x_l2 s))),
+          (if kd_ends (u_kd (x_u s)) t
+           then (xp_t1 p + K.tl (u_kd (fst (elapse_keydown_trait (xp p) t (x_u s)))), xp_t1 p)
+           else (fst (x_l2 s) - t, snd (x_l2 s))),
    snd (elapse_keydown_trait (xp p) t (x_u s))).
 Proof.
-  unfold fmb_elapse, fmb_penalize, lift. cbn [fst snd]. rewrite kd_ended_elapse. destruct (kd_ends _ _); reflexivity.
+  unfold fmb_elapse, fmb_penalize_elapse, lift. cbn [fst snd]. rewrite kd_ended_elapse. destruct (kd_ends _ _); reflexivity.
 Qed.
 
 Lemma running_after k t : K.wf k -> 0 <= t -> K.running (fst (K.resolving k t)) = (0 <? K.tl k - t).
@@ -224,66 +226,70 @@ Proof.
   intros W Ht. pose proof (EKeydownP.resolving_spec k t W Ht) as X. destruct (K.resolving k t) as [k' n].
   destruct X as [_ ->]. reflexivity.
 Qed.
+Lemma tl_after k t : K.wf k -> 0 <= t -> K.tl (fst (K.resolving k t)) = K.tl k - t.
+Proof.
+  intros W Ht. pose proof (EKeydownP.resolving_spec k t W Ht) as X. destruct (K.resolving k t) as [k' n].
+  destruct X as [_ ->]. reflexivity.
+Qed.
+Lemma kd_of_elapse q t u : u_kd (fst (elapse_keydown_trait q t u)) = fst (K.resolving (u_kd u) t).
+Proof. unfold elapse_keydown_trait. destruct (K.resolving (u_kd u) t) as [k1 n1]. reflexivity. Qed.
 
-(* the key-down part is exactly additive; the penalty slot is, unless the key-down ended within the first chunk *)
+(* after the repair f0eb2ac the whole state, penalty included, is exactly additive *)
 Lemma chunk_barrage p a b s : xwf s -> 0 <= a -> 0 <= b ->
   let r1 := fmb_elapse p a s in let r2 := fmb_elapse p b (fst r1) in let r3 := fmb_elapse p (a + b) s in
-  set_l2 (fst r2) (0, 0) = set_l2 (fst r3) (0, 0) /\ Permutation (dealts (snd r1 ++ snd r2)) (dealts (snd r3)) /\
-  (kd_ends (u_kd (x_u s)) a = false -> fst r2 = fst r3) /\
-  (kd_ends (u_kd (x_u s)) a = true ->
-   x_l2 (fst r2) = (xp_t1 p - b, xp_t1 p) /\ x_l2 (fst r3) = (xp_t1 p, xp_t1 p)).
+  fst r2 = fst r3 /\ Permutation (dealts (snd r1 ++ snd r2)) (dealts (snd r3)).
 Proof.
   intros [W _] Ha Hb. cbn zeta. rewrite !fmb_elapse_eq. xsimpl.
+  pose proof (kd_of_elapse (xp p) a (x_u s)) as K1.
+  pose proof (kd_of_elapse (xp p) (a + b) (x_u s)) as K3.
   destruct (elapse_keydown_trait (xp p) a (x_u s)) as [u1 e1] eqn:E1. xsimpl.
+  pose proof (kd_of_elapse (xp p) b u1) as K2.
   destruct (elapse_keydown_trait (xp p) b u1) as [u2 e2] eqn:E2.
   destruct (elapse_keydown_trait (xp p) (a + b) (x_u s)) as [u3 e3] eqn:E3. xsimpl.
   assert (H1 : reduce_spec KeydownSkill MElapse (xp p) a (x_u s) = Some (u1, e1)) by (cbn; rewrite E1; reflexivity).
   assert (H2 : reduce_spec KeydownSkill MElapse (xp p) b u1 = Some (u2, e2)) by (cbn; rewrite E2; reflexivity).
   assert (H3 : reduce_spec KeydownSkill MElapse (xp p) (a + b) (x_u s) = Some (u3, e3)) by (cbn; rewrite E3; reflexivity).
   destruct (chunk_keydown (xp p) a b (x_u s) u1 e1 u2 e2 u3 e3 W Ha Hb H1 H2 H3) as [U Pm]. clear H1 H2 H3.
-  subst u3.
-  assert (K1 : u_kd u1 = fst (K.resolving (u_kd (x_u s)) a)).
-  { unfold elapse_keydown_trait in E1. destruct (K.resolving (u_kd (x_u s)) a) as [k1 n1]. injection E1 as <- _. reflexivity. }
+  subst u3. cbn [fst] in K1, K2, K3.
   destruct W as (_ & _ & _ & _ & WK).
   pose proof (running_after _ a WK Ha) as R1. pose proof (running_after _ (a + b) WK ltac:(lia)) as R3.
+  pose proof (tl_after _ a WK Ha) as T1. pose proof (tl_after _ (a + b) WK ltac:(lia)) as T3.
   pose proof (EKeydownP.resolving_wf _ a WK Ha) as WK1.
-  pose proof (running_after _ b WK1 Hb) as R2.
-  pose proof (EKeydownP.resolving_spec _ a WK Ha) as S1. destruct (K.resolving (u_kd (x_u s)) a) as [k1 n1] eqn:EK1.
-  destruct S1 as [_ S1]. cbn [fst] in *. rewrite K1.
-  assert (T1 : K.tl k1 = K.tl (u_kd (x_u s)) - a) by (rewrite S1; reflexivity).
+  rewrite <- K1 in R1, T1, WK1. rewrite <- K3 in R3, T3.
+  pose proof (running_after _ b WK1 Hb) as R2. pose proof (tl_after _ b WK1 Hb) as T2.
+  rewrite <- K2 in R2, T2. rewrite T1 in R2, T2.
   set (tl := K.tl (u_kd (x_u s))) in *.
   assert (Ea : kd_ends (u_kd (x_u s)) a = (0 <? tl) && negb (0 <? tl - a)).
-  { unfold kd_ends. rewrite EK1. cbn [fst]. rewrite R1. reflexivity. }
-  assert (Eb : kd_ends k1 b = (0 <? tl - a) && negb (0 <? tl - (a + b))).
-  { unfold kd_ends. rewrite R2. change (K.running k1) with (0 <? K.tl k1). rewrite T1.
+  { unfold kd_ends. rewrite <- K1, R1. reflexivity. }
+  assert (Eb : kd_ends (u_kd u1) b = (0 <? tl - a) && negb (0 <? tl - (a + b))).
+  { unfold kd_ends. rewrite <- K2, R2. change (K.running (u_kd u1)) with (0 <? K.tl (u_kd u1)). rewrite T1.
     replace (tl - a - b) with (tl - (a + b)) by lia. reflexivity. }
   assert (Eab : kd_ends (u_kd (x_u s)) (a + b) = (0 <? tl) && negb (0 <? tl - (a + b))).
-  { unfold kd_ends. rewrite R3. reflexivity. }
-  rewrite Ea, Eb, Eab. clear Ea Eb Eab R1 R2 R3 EK1 S1 T1 WK1 E1 E2 E3.
-  split.
-  { reflexivity. }
-  split; [exact Pm|].
+  { unfold kd_ends. rewrite <- K3, R3. reflexivity. }
+  rewrite Ea, Eb, Eab, T1, T2. clear Ea Eb Eab R1 R2 R3 K1 K2 K3 WK1 E1 E2 E3.
+  split; [|exact Pm].
   destruct (Z.ltb_spec 0 tl); destruct (Z.ltb_spec 0 (tl - a)); destruct (Z.ltb_spec 0 (tl - (a + b)));
-    cbn [andb negb fst snd]; try lia; split; intros Hx; try discriminate; xsimpl;
-    try (split; reflexivity);
-    try (apply xst_ext; xsimpl; try reflexivity; f_equal; lia).
+    cbn [andb negb fst snd]; try lia;
+    apply xst_ext; xsimpl; try reflexivity; f_equal; lia.
 Qed.
 
+(* the witness of the former finding C09-fullmetalbarrage-penalty-chunking (key-down with 100 ms left, then
+   100 + 900 ms versus 1000 ms): the penalty time now agrees *)
 Definition fmb_par : xpar :=
   mkXP (mkPar false (1, 1) 0 0 0 0 0 0%nat [] (0, 0) (0, 0) (0, 0) (2, 2) 1800 (0, 0) 8000 0 0 0 (0, 0)) (0, 0) 0 2000 0 1 1 [].
 Definition fmb_state : xst := set_u x0 (set_kd u0 (K.mkK 150 50 100)).
-Lemma barrage_chunk_refuted :
-  exists p s a b, xwf s /\ 0 <= a /\ 0 <= b /\
-    x_l2 (fst (fmb_elapse p b (fst (fmb_elapse p a s)))) <> x_l2 (fst (fmb_elapse p (a + b) s)).
+Example barrage_chunk_repaired :
+  xwf fmb_state /\
+  x_l2 (fst (fmb_elapse fmb_par 900 (fst (fmb_elapse fmb_par 100 fmb_state)))) = (1100, 2000) /\
+  x_l2 (fst (fmb_elapse fmb_par 1000 fmb_state)) = (1100, 2000).
 Proof.
-  exists fmb_par, fmb_state, 100, 900. split.
-  { unfold xwf, wf_ust, P.wf, C.wf, K.wf, DP.wf. cbn. lia. }
-  split; [lia|]. split; [lia|]. vm_compute. discriminate.
+  split. { unfold xwf, wf_ust, P.wf, C.wf, K.wf, DP.wf. cbn. lia. }
+  split; vm_compute; reflexivity.
 Qed.
 
 (* ------------------------------------------------------------ summary *)
 Definition xchunk_kind (c : xcomp) : bool :=
-  match c with CosmicOrb | CrossTheStyx | FullMetalBarrage => false | _ => true end.
+  match c with CosmicOrb | CrossTheStyx => false | _ => true end.
 
 Lemma xelapse_chunk c p a b s s1 e1 s2 e2 s3 e3 :
   xchunk_kind c = true -> xwf s -> 0 <= a -> 0 <= b ->
@@ -297,6 +303,7 @@ Proof.
   - apply (lift_chunk PeriodicAttack (elapse_periodic_with P.elapse (xp p)) (xp p) a b s eq_refl); auto.
   - apply (lift_chunk BuffSkill (fun t u => elapse_buff_trait t u) (xp p) a b s eq_refl); auto.
   - destruct (chunk_homming p a b s W Ha Hb) as [X ->]. split; [exact X|reflexivity].
+  - destruct (chunk_barrage p a b s W Ha Hb) as [-> X]. split; [reflexivity|exact X].
   - destruct (chunk_multiple_option p a b s W Ha Hb) as [X ->]. split; [exact X|reflexivity].
   - destruct (chunk_meca p a b s W Ha Hb) as [X ->]. split; [exact X|reflexivity].
   - destruct (chunk_elysion a b s Ha Hb) as [-> ->]. split; reflexivity.
@@ -332,20 +339,3 @@ Proof.
   rewrite <- A1, <- A2, <- A3, <- A4, <- B1, <- B2, <- B3, <- B4, U. repeat split.
 Qed.
 
-(* FullMetalBarrageComponent: the true part *)
-Theorem barrage_chunk_partial p a b s s1 e1 s2 e2 s3 e3 :
-  xwf s -> 0 <= a -> 0 <= b ->
-  xreduce_spec FullMetalBarrage XElapse p a s = Some (s1, e1) -> xreduce_spec FullMetalBarrage XElapse p b s1 = Some (s2, e2) ->
-  xreduce_spec FullMetalBarrage XElapse p (a + b) s = Some (s3, e3) ->
-  set_l2 s2 (0, 0) = set_l2 s3 (0, 0) /\ Permutation (dealts (e1 ++ e2)) (dealts e3) /\
-  (kd_ends (u_kd (x_u s)) a = false -> s2 = s3) /\
-  (kd_ends (u_kd (x_u s)) a = true -> x_l2 s2 = (xp_t1 p - b, xp_t1 p) /\ x_l2 s3 = (xp_t1 p, xp_t1 p)) /\
-  xview_validity FullMetalBarrage p s2 = xview_validity FullMetalBarrage p s3 /\
-  xview_keydown FullMetalBarrage s2 = xview_keydown FullMetalBarrage s3.
-Proof.
-  intros W Ha Hb H1 H2 H3. cbn in H1, H2, H3. apply some_inj in H1; apply some_inj in H2; apply some_inj in H3.
-  apply pair_eq in H1; destruct H1 as [-> ->]; apply pair_eq in H2; destruct H2 as [-> ->]; apply pair_eq in H3; destruct H3 as [-> ->].
-  destruct (chunk_barrage p a b s W Ha Hb) as (A & B & C & D). repeat split; try assumption; try (apply D; assumption).
-  - apply (f_equal (fun x => xview_validity FullMetalBarrage p x)) in A. exact A.
-  - apply (f_equal (fun x => xview_keydown FullMetalBarrage x)) in A. exact A.
-Qed.
